@@ -102,6 +102,7 @@ pub enum OpRec {
     Remove { item: i32, key: i32 },
     Clear { item: i32 },
     Suspend { id: i32 },
+    Transform { item: i32, key: i32, value: Option<i32> },
 }
 
 #[derive(Debug, Clone, PartialEq, Eq)]
@@ -134,6 +135,7 @@ impl Tr {
             Tr::Op(OpRec::Remove { .. }) => "Op.remove".into(),
             Tr::Op(OpRec::Clear { .. }) => "Op.clear".into(),
             Tr::Op(OpRec::Suspend { .. }) => "Op.suspend".into(),
+            Tr::Op(OpRec::Transform { .. }) => "Op.transform".into(),
             Tr::Observe { .. } => "Observe".into(),
             Tr::Mark(_) => "Mark".into(),
             Tr::Failing => "Failing".into(),
@@ -353,6 +355,26 @@ macro_rules! def_build {
                 Prog::Stop => {
                     let t = trace.clone();
                     context.effect(move || push(&t, Tr::Stopping)).followed_by(context.stop()).$boxm()
+                }
+                Prog::Wrap { kind, inner } => {
+                    let h = $build(context, inner, trace);
+                    match kind {
+                        0 => Some(h).discard().$boxm(),
+                        1 => h.map(|_: ()| ()).$boxm(),
+                        _ => {
+                            let _unused = h;
+                            None::<$ty>.discard().$boxm()
+                        }
+                    }
+                }
+                Prog::Transform { item, key, value } => {
+                    let (i, k, v) = (*item, *key, *value);
+                    let t = trace.clone();
+                    let rec = context.effect(move || push(&t, Tr::Op(OpRec::Transform { item: i, key: k, value: v })));
+                    match i {
+                        3 => rec.followed_by(context.transform_entry(ProgAgent::M0, k, move |_: Option<&i32>| v)).$boxm(),
+                        _ => rec.followed_by(context.transform_entry(ProgAgent::M1, k, move |_: Option<&i32>| v)).$boxm(),
+                    }
                 }
             }
         }
